@@ -17,6 +17,10 @@ CHECKS = {
          "Generated shapes and operation sequences (construction / indexed / un-indexed phases, mirroring every assert in sparse_matrix.rs) are applied to DenseBinaryMatrix, SparseBinaryMatrix and a plain Vec<Vec<Tri>> model; every query answer of both implementations is compared with the model on defined cells, plus a full scan at the end; also run with debug assertions. Found and drove the repair of two out-of-bounds panics of the dense matrix.",
          "Sampled sequences; undefined cells (left of start_col after a partial addition where the source row is non-zero) are excluded as the interface declares; trailing dense hint >= 1.",
          "DESIGN.md 5/C16"),
+ "C17": ("controlled-scheduler exploration: exhaustive enumeration of critical-section interleavings for small shapes + generated schedules and eviction histories, invariants after every step",
+         "The harness owns the schedule of the plan cache's two critical sections through the yield hook: all interleavings are enumerated for 2x2, 3x1 and selected 3x2 request shapes (also with the cache at capacity), and generated request histories/schedules (incl. 60-90 distinct sizes to force eviction and re-requests of evicted sizes) are explored; after every critical section the capacity bound, the queue/key bijection and key == plan size are checked, and every encoder is compared (== and packet-wise) with encoders built without the cache. An uncontrolled multi-thread stress run adds the same invariants at the end.",
+         "Sound reduction to critical-section granularity assumes all shared state is behind the cache Mutex (true in this tree) and std::sync::Mutex is correct; exhaustive only for the listed small shapes.",
+         "DESIGN.md 5/C17"),
  "C13": ("exhaustive enumeration (payload IDs) + proptest vs. reference (de)serialisers",
          "All 2^32 payload-ID buffers are parsed and re-serialised against the RFC 3.2 layout (exhaustive); packets and the 12-byte transmission information are checked on generated buffers/values (field-boundary biased) against reference (de)serialisers written from RFC 3.3.2/3.3.3, both directions.",
          "Reference layouts written from the RFC text; OTI and packet sub-checks are sampled, not exhaustive.",
